@@ -5,6 +5,7 @@ From Coq Require Import List NArith Bool.
 From WTP Require Import Base.Str Model.Expand Model.Nowiki Gen.GenData Proofs.NowikiProofs Proofs.ExpandProofs.
 From Coq Require String.
 From WTP Require Import Model.Preprocess Proofs.PreprocessProofs Gen.GenPre.
+From WTP Require Proofs.NowikiEndProofs.
 Import ListNotations.
 Open Scope N_scope.
 
@@ -51,6 +52,26 @@ Theorem c15_preprocess_sets_nowiki_aside_and_deletes_comments :
 Proof. exact preprocess_spec. Qed.
 Print Assumptions c15_preprocess_sets_nowiki_aside_and_deletes_comments.
 
+
+(* End to end, for every page made of plain text (no brackets, braces or angle brackets), closed comments, nowiki
+   elements and <nowiki/> tags, in any library and under any options: preprocessing, expansion and finalisation
+   together print every nowiki content entity-quoted (with the map of the current source), drop every closed comment
+   with the line break before it, and leave the rest as written. *)
+Theorem c15_text_comments_and_nowiki_end_to_end :
+  forall pfnames lib opts pre_expand segs,
+    Forall PreprocessProofs.seg_ok segs -> no_adjacent_plain segs ->
+    forall f, (length (PreprocessProofs.spec segs) < f)%nat ->
+      expand_page pfnames nowiki_map lib opts pre_expand f (NowikiEndProofs.encode_plain (preprocess (render_ps segs)))
+      = Some (flat_map (NowikiEndProofs.out_of nowiki_map) (PreprocessProofs.spec segs)).
+Proof. intros. apply NowikiEndProofs.page_of_text_comments_and_nowiki; assumption. Qed.
+Print Assumptions c15_text_comments_and_nowiki_end_to_end.
+
+(* "ab<!-- c --><nowiki>[[x]]</nowiki>" comes out as "ab&lsqb;&lsqb;x&rsqb;&rsqb;" *)
+Example c15_end_to_end_example :
+  expand_page [] nowiki_map [] (mkopts true (mksel None None) false [] []) false 50
+    (NowikiEndProofs.encode_plain (preprocess (render_ps [SPlain [97; 98]; SComment [32; 99; 32]; SNowiki [91; 91; 120; 93; 93]])))
+  = Some ([97; 98] ++ [38;108;115;113;98;59] ++ [38;108;115;113;98;59] ++ [120] ++ [38;114;115;113;98;59] ++ [38;114;115;113;98;59]).
+Proof. vm_compute. reflexivity. Qed.
 
 (* The pass Model/Preprocess.v models is the pass the current source has (Gen/GenPre.v is regenerated from
    Wtp.preprocess_text on every run; the translator also pins the replacement function). *)
